@@ -316,6 +316,8 @@ class Interp:
         self.assumptions = set()
         self.tables = {}
         self.max_loop = 5000
+        self.environ = None  # None: unknown environment (reads are unknown values); "unset": no variable is set; any other text: every variable read has that value
+        self.environ_reads = []
         self.cond_depth = 0  # > 0 while statements run under a condition that could not be decided (the other way they are skipped)
 
     def note(self, kind, where, detail):
@@ -752,6 +754,15 @@ class Interp:
         if isinstance(l, Leaf) and isinstance(r, Leaf):
             kind = "datetime" if "datetime" in (l.kind, r.kind) else "timedelta" if "timedelta" in (l.kind, r.kind) else "number"
             return l.combine(r, opname, kind)
+        if opname == "Mod" and isinstance(l, Const) and isinstance(l.v, (str, bytes)) and isinstance(r, (TupS, ListLit, DictS)):
+            # "...%d..." % (constants): printf-style formatting folds like the Python values it denotes
+            from .shapes_lib import _NOPY, to_py
+            pr = to_py(r)
+            if pr is not _NOPY:
+                try:
+                    return Const(l.v % pr)
+                except Exception as ex_:
+                    raise _Raise(f"{type(ex_).__name__}: {ex_}", [c_.__name__ for c_ in type(ex_).__mro__])
         if isinstance(l, Leaf) and isinstance(r, Const):
             return l.derive(f"{opname}({r.v!r})")
         if isinstance(r, Leaf) and isinstance(l, Const):
@@ -897,6 +908,11 @@ class Interp:
         return self.getitem(v, k, e)
 
     def getitem(self, v, k, node=None):
+        if isinstance(v, Fn) and v.kind == "lib" and v.name == "os.environ" and self.environ is not None and isinstance(k, Const):
+            self.environ_reads.append(k.v)
+            if self.environ == "unset":
+                raise _Raise(f"KeyError {k.v!r}", ["KeyError", "LookupError", "Exception", "BaseException", "object"])
+            return Const(self.environ)
         if isinstance(v, Obj) and v.cls == "Match" and isinstance(k, Const) and isinstance(v.fields.get("groups"), DictS):
             # match["name"] is match.group("name")
             if k.v in v.fields["groups"].items:
@@ -1120,6 +1136,9 @@ class Interp:
         return None
 
     def contains(self, coll, item):
+        if isinstance(coll, Fn) and coll.kind == "lib" and coll.name == "os.environ" and self.environ is not None and isinstance(item, Const):
+            self.environ_reads.append(item.v)
+            return self.environ != "unset"
         if isinstance(coll, Obj) and "__contains__" in coll.fields:
             return self.truth(self.call(coll.fields["__contains__"], [item], {}, None))
         t = getattr(coll, "table", None)
